@@ -4,6 +4,7 @@ import (
 	"fmt"
 	"go/ast"
 	"go/constant"
+	"go/parser"
 	"go/token"
 	"go/types"
 	"sort"
@@ -2327,4 +2328,399 @@ func E9ClipClosed(c *core.Ctx, r *core.Report) {
 	})
 	r.Count("E9.clipping-registrations", n)
 	r.Floor("E9.clipping-registrations", 1)
+}
+
+// chordShortcuts examines, in a function whose parameters are the control points of a Bézier
+// (first and last: the end points), every return of the chord's length under a condition: the
+// curve is its chord only if each inner control point lies between the end points, which needs a
+// test that is signed along the chord; PerpDot(…) == 0 alone establishes collinearity only.
+func chordShortcuts(info *types.Info, fd *ast.FuncDecl, visit func(pos token.Pos, cp string, ok bool)) {
+	var pts []types.Object
+	for _, f := range fd.Type.Params.List {
+		if t := info.TypeOf(f.Type); t == nil || !strings.HasSuffix(t.String(), "Point") {
+			continue
+		}
+		for _, nm := range f.Names {
+			pts = append(pts, info.Defs[nm])
+		}
+	}
+	if len(pts) < 3 {
+		return
+	}
+	first, last := pts[0], pts[len(pts)-1]
+	defs := singleDefs(info, fd.Body)
+	mentions := func(e ast.Node, o types.Object) bool {
+		f := false
+		ast.Inspect(e, func(k ast.Node) bool {
+			if id, ok := k.(*ast.Ident); ok && core.ObjOf(info, id) == o {
+				f = true
+			}
+			return true
+		})
+		return f
+	}
+	isChordLen := func(e ast.Expr) bool {
+		call, ok := core.Unparen(e).(*ast.CallExpr)
+		if !ok {
+			return false
+		}
+		se, ok := call.Fun.(*ast.SelectorExpr)
+		if !ok || se.Sel.Name != "Length" {
+			return false
+		}
+		x := core.Unparen(se.X)
+		if id, ok := x.(*ast.Ident); ok {
+			if d, ok := defs[core.ObjOf(info, id)]; ok {
+				x = core.Unparen(d)
+			}
+		}
+		sub, ok := x.(*ast.CallExpr)
+		if !ok {
+			return false
+		}
+		ss, ok := sub.Fun.(*ast.SelectorExpr)
+		if !ok || ss.Sel.Name != "Sub" || len(sub.Args) != 1 {
+			return false
+		}
+		return mentions(ss.X, last) && mentions(sub.Args[0], first) || mentions(ss.X, first) && mentions(sub.Args[0], last)
+	}
+	var atoms func(e ast.Expr, out *[]ast.Expr)
+	atoms = func(e ast.Expr, out *[]ast.Expr) {
+		switch x := core.Unparen(e).(type) {
+		case *ast.BinaryExpr:
+			if x.Op == token.LAND || x.Op == token.LOR {
+				atoms(x.X, out)
+				atoms(x.Y, out)
+				return
+			}
+		case *ast.UnaryExpr:
+			if x.Op == token.NOT {
+				atoms(x.X, out)
+				return
+			}
+		}
+		*out = append(*out, core.Unparen(e))
+	}
+	// does the atom use cp outside PerpDot calls?
+	signedUse := func(atom ast.Expr, cp types.Object) bool {
+		found := false
+		var walk func(n ast.Node, inPerp bool)
+		walk = func(n ast.Node, inPerp bool) {
+			ast.Inspect(n, func(k ast.Node) bool {
+				if k == nil || k == n {
+					return true
+				}
+				if call, ok := k.(*ast.CallExpr); ok {
+					if se, ok := call.Fun.(*ast.SelectorExpr); ok && se.Sel.Name == "PerpDot" {
+						walk(se.X, true)
+						for _, a := range call.Args {
+							walk(a, true)
+						}
+						return false
+					}
+				}
+				if id, ok := k.(*ast.Ident); ok && core.ObjOf(info, id) == cp && !inPerp {
+					found = true
+				}
+				return true
+			})
+			if id, ok := n.(*ast.Ident); ok && core.ObjOf(info, id) == cp && !inPerp {
+				found = true
+			}
+		}
+		// locals: a single-definition local stands for its definition (transitively); a definition
+		// that is itself a PerpDot call stays collinearity-only
+		walk(atom, false)
+		seen := map[types.Object]bool{}
+		var expand func(n ast.Node)
+		expand = func(n ast.Node) {
+			ast.Inspect(n, func(k ast.Node) bool {
+				id, ok := k.(*ast.Ident)
+				if !ok {
+					return true
+				}
+				o := core.ObjOf(info, id)
+				d, ok := defs[o]
+				if !ok || seen[o] {
+					return true
+				}
+				seen[o] = true
+				if call, ok := core.Unparen(d).(*ast.CallExpr); ok {
+					if se, ok := call.Fun.(*ast.SelectorExpr); ok && se.Sel.Name == "PerpDot" {
+						return true
+					}
+				}
+				walk(d, false)
+				expand(d)
+				return true
+			})
+		}
+		if !found {
+			expand(atom)
+		}
+		return found
+	}
+	ast.Inspect(fd.Body, func(m ast.Node) bool {
+		is, ok := m.(*ast.IfStmt)
+		if !ok || len(is.Body.List) == 0 {
+			return true
+		}
+		ret, ok := is.Body.List[len(is.Body.List)-1].(*ast.ReturnStmt)
+		if !ok || len(ret.Results) != 1 || !isChordLen(ret.Results[0]) {
+			return true
+		}
+		var as []ast.Expr
+		atoms(is.Cond, &as)
+		if init, ok := is.Init.(*ast.AssignStmt); ok {
+			_ = init
+		}
+		for _, cp := range pts[1 : len(pts)-1] {
+			okCP := false
+			for _, a := range as {
+				if signedUse(a, cp) {
+					okCP = true
+				}
+			}
+			visit(is.Pos(), cp.Name(), okCP)
+		}
+		return true
+	})
+}
+
+// E9ChordShortcut: a Bézier is measured as its chord only when its control points lie between the end points.
+func E9ChordShortcut(c *core.Ctx, r *core.Report) {
+	r.Rule("E9.chord-shortcut", "the Bézier length helpers of path_util.go may return the length of the chord only where the curve is its chord: every inner control point lies on the segment between the end points. Collinearity (`chord.PerpDot(cp−p0) == 0`) is symmetric along the line and does not say on which side of an end point the control point lies; a cubic whose control points overshoot runs out and comes back, and its length exceeds the chord (`M0 0C50 0 250 0 100 0`: 209.6, not 100) — Path.CubeTo demotes only the in-between case to a line, so such cubics reach the helper. For every return of the chord length under a condition, each inner control point appears in an atom of the condition outside PerpDot (a signed test: Dot, AngleBetween, Equals, an ordering of projections). Built-in example on every run; the expected count on the tree is zero")
+	// self-test
+	{
+		src := `package x
+type Point struct{ X, Y float64 }
+func (p Point) Sub(q Point) Point { return p }
+func (p Point) PerpDot(q Point) float64 { return 0 }
+func (p Point) Dot(q Point) float64 { return 0 }
+func (p Point) Length() float64 { return 0 }
+func collinearOnly(p0, p1, p2, p3 Point) float64 {
+	if chord := p3.Sub(p0); chord.PerpDot(p1.Sub(p0)) == 0 && chord.PerpDot(p2.Sub(p0)) == 0 {
+		return chord.Length()
+	}
+	return 1
+}
+func between(p0, p1, p2, p3 Point) float64 {
+	chord := p3.Sub(p0)
+	if chord.PerpDot(p1.Sub(p0)) == 0 && chord.PerpDot(p2.Sub(p0)) == 0 && 0 <= chord.Dot(p1.Sub(p0)) && 0 <= chord.Dot(p3.Sub(p1)) && 0 <= chord.Dot(p2.Sub(p0)) && 0 <= chord.Dot(p3.Sub(p2)) {
+		return p3.Sub(p0).Length()
+	}
+	return 1
+}
+`
+		fset := token.NewFileSet()
+		f, err := parser.ParseFile(fset, "selftest.go", src, 0)
+		if err != nil {
+			panic(core.Infra("chord-shortcut self-test does not parse: " + err.Error()))
+		}
+		info := &types.Info{Types: map[ast.Expr]types.TypeAndValue{}, Uses: map[*ast.Ident]types.Object{}, Defs: map[*ast.Ident]types.Object{}, Selections: map[*ast.SelectorExpr]*types.Selection{}}
+		if _, err := (&types.Config{}).Check("x", fset, []*ast.File{f}, info); err != nil {
+			panic(core.Infra("chord-shortcut self-test does not type-check: " + err.Error()))
+		}
+		got := ""
+		for _, d := range f.Decls {
+			fd, ok := d.(*ast.FuncDecl)
+			if !ok || fd.Recv != nil {
+				continue
+			}
+			chordShortcuts(info, fd, func(_ token.Pos, cp string, ok bool) {
+				got += fd.Name.Name + ":" + cp + map[bool]string{true: "+", false: "-"}[ok] + " "
+			})
+		}
+		if got != "collinearOnly:p1- collinearOnly:p2- between:p1+ between:p2+ " {
+			panic(core.Infra("chord-shortcut self-test: recogniser answers `" + got + "`"))
+		}
+		r.Count("E9.chord-shortcut-selftest", 4)
+	}
+	p := c.MustPkg("")
+	n := 0
+	for _, fd := range core.AllFuncDecls(p) {
+		if !strings.HasSuffix(c.Fset.Position(fd.Pos()).Filename, "path_util.go") || !strings.HasSuffix(fd.Name.Name, "Length") {
+			continue
+		}
+		n++
+		bad := ""
+		var badPos token.Pos
+		sites := 0
+		chordShortcuts(p.TypesInfo, fd, func(pos token.Pos, cp string, ok bool) {
+			sites++
+			if !ok && bad == "" {
+				bad, badPos = cp, pos
+			}
+		})
+		key := "canvas." + fd.Name.Name + "|chord length only between the end points"
+		if bad == "" {
+			r.OK("E9.chord-shortcut", key, c.Pos(fd.Pos()), fmt.Sprintf("%d control-point obligation(s)", sites))
+		} else {
+			r.Fail("E9.chord-shortcut", key, c.Pos(badPos), "the chord's length is returned under a condition that tests control point `"+bad+"` for collinearity only (PerpDot): a control point beyond an end point makes the curve run out and back, longer than the chord")
+		}
+	}
+	r.Count("E9.length-helpers", n)
+	r.Floor("E9.length-helpers", 2)
+	r.Floor("E9.chord-shortcut-selftest", 4)
+}
+
+// E9EndpointPair: the two end points of a sweep segment agree on the segment's attributes.
+func E9EndpointPair(c *core.Ctx, r *core.Report) {
+	r.Rule("E9.endpoint-pair", "a segment of the sweep is a pair of SweepPoints linked through `other`. Attributes of the segment (clipping, open, segment, increasing, vertical) are equal on both, `left` is complementary. (1) Where a pair is created (two composite literals whose variables are made each other's `other`) the attribute fields are given the same expressions and `left` an expression and its negation. (2) SweepPoint.Reverse keeps the invariant: its assignments to s.F and s.other.F are evaluated with the invariant assumed before (s.other.increasing ≡ s.increasing, s.other.left ≡ !s.left, double negations removed) and must give equal values for increasing and complementary ones for left. computeSweepFields reads `increasing` from whichever end is the left one; if Reverse flips only the receiver, a segment reversed through its other end gets self windings of the wrong sign")
+	p := c.MustPkg("")
+	info := p.TypesInfo
+	n := 0
+	// (1) creation sites
+	for _, fd := range core.AllFuncDecls(p) {
+		if strings.HasSuffix(c.Fset.Position(fd.Pos()).Filename, "_test.go") {
+			continue
+		}
+		lits := map[types.Object]*ast.CompositeLit{}
+		other := map[types.Object]types.Object{}
+		ast.Inspect(fd.Body, func(m ast.Node) bool {
+			as, ok := m.(*ast.AssignStmt)
+			if !ok || len(as.Lhs) != 1 || len(as.Rhs) != 1 {
+				return true
+			}
+			// *a = SweepPoint{…}
+			if st, ok := as.Lhs[0].(*ast.StarExpr); ok {
+				if id, ok := core.Unparen(st.X).(*ast.Ident); ok {
+					if cl, ok := core.Unparen(as.Rhs[0]).(*ast.CompositeLit); ok {
+						if t := info.TypeOf(cl); t != nil && strings.HasSuffix(t.String(), "SweepPoint") {
+							lits[core.ObjOf(info, id)] = cl
+						}
+					}
+				}
+			}
+			// a.other = b
+			if se, ok := as.Lhs[0].(*ast.SelectorExpr); ok && se.Sel.Name == "other" {
+				a, ok1 := core.Unparen(se.X).(*ast.Ident)
+				b, ok2 := core.Unparen(as.Rhs[0]).(*ast.Ident)
+				if ok1 && ok2 {
+					other[core.ObjOf(info, a)] = core.ObjOf(info, b)
+				}
+			}
+			return true
+		})
+		done := map[types.Object]bool{}
+		for a, b := range other {
+			if other[b] != a || done[a] || done[b] || lits[a] == nil || lits[b] == nil {
+				continue
+			}
+			done[a], done[b] = true, true
+			n++
+			key := "canvas." + core.FuncName(fd) + "|the two end points of a new segment agree"
+			field := func(cl *ast.CompositeLit, name string) string {
+				for _, el := range cl.Elts {
+					if kv, ok := el.(*ast.KeyValueExpr); ok {
+						if k, ok := kv.Key.(*ast.Ident); ok && k.Name == name {
+							return squash(types.ExprString(kv.Value))
+						}
+					}
+				}
+				return ""
+			}
+			bad := ""
+			for _, f := range []string{"clipping", "open", "segment", "increasing", "vertical"} {
+				if field(lits[a], f) != field(lits[b], f) {
+					bad = fmt.Sprintf("field %s is `%s` on one end and `%s` on the other", f, field(lits[a], f), field(lits[b], f))
+				}
+			}
+			la, lb := field(lits[a], "left"), field(lits[b], "left")
+			if !(la == "!"+lb || lb == "!"+la) {
+				bad = fmt.Sprintf("field left is `%s` on one end and `%s` on the other, not complementary", la, lb)
+			}
+			if bad == "" {
+				r.OK("E9.endpoint-pair", key, c.Pos(lits[a].Pos()), "")
+			} else {
+				r.Fail("E9.endpoint-pair", key, c.Pos(lits[a].Pos()), bad)
+			}
+		}
+	}
+	// (2) Reverse
+	fd := core.MustFuncDecl(p, "SweepPoint.Reverse")
+	r.Func("canvas.SweepPoint.Reverse")
+	recv := recvObj(info, fd)
+	// normal form of a boolean expression over the receiver's fields under the invariant: (field, negated)
+	var norm func(e ast.Expr) (string, bool, bool)
+	norm = func(e ast.Expr) (string, bool, bool) {
+		switch x := core.Unparen(e).(type) {
+		case *ast.UnaryExpr:
+			if x.Op == token.NOT {
+				f, neg, ok := norm(x.X)
+				return f, !neg, ok
+			}
+		case *ast.SelectorExpr:
+			names, rooted := ctxFieldPath(info, x, recv)
+			if !rooted {
+				return "", false, false
+			}
+			switch {
+			case len(names) == 1:
+				return names[0], false, true
+			case len(names) == 2 && names[0] == "other":
+				return names[1], names[1] == "left", true // other.left ≡ !left; other.F ≡ F
+			}
+		}
+		return "", false, false
+	}
+	seen := map[string]bool{}
+	ast.Inspect(fd.Body, func(m ast.Node) bool {
+		as, ok := m.(*ast.AssignStmt)
+		if !ok || len(as.Lhs) != len(as.Rhs) {
+			return true
+		}
+		type tgt struct {
+			onOther bool
+			rhs     ast.Expr
+		}
+		byField := map[string][]tgt{}
+		for i, l := range as.Lhs {
+			names, rooted := ctxFieldPath(info, l, recv)
+			if !rooted {
+				continue
+			}
+			switch {
+			case len(names) == 1:
+				byField[names[0]] = append(byField[names[0]], tgt{false, as.Rhs[i]})
+			case len(names) == 2 && names[0] == "other":
+				byField[names[1]] = append(byField[names[1]], tgt{true, as.Rhs[i]})
+			}
+		}
+		for f, ts := range byField {
+			if f != "left" && f != "increasing" && f != "clipping" && f != "open" && f != "vertical" {
+				continue
+			}
+			n++
+			seen[f] = true
+			key := "canvas.SweepPoint.Reverse|field " + f + " stays consistent between the two end points"
+			if len(ts) != 2 || ts[0].onOther == ts[1].onOther {
+				r.Fail("E9.endpoint-pair", key, c.Pos(as.Pos()), "the field is assigned on one end point only (in this statement): the other end keeps the stale value")
+				continue
+			}
+			f0, n0, ok0 := norm(ts[0].rhs)
+			f1, n1, ok1 := norm(ts[1].rhs)
+			if !ok0 || !ok1 || f0 != f || f1 != f {
+				r.Fail("E9.endpoint-pair", key, c.Pos(as.Pos()), "the assigned values are not expressions of the segment's own `"+f+"`")
+				continue
+			}
+			wantEqual := f != "left"
+			if (n0 == n1) == wantEqual {
+				r.OK("E9.endpoint-pair", key, c.Pos(as.Pos()), "")
+			} else if wantEqual {
+				r.Fail("E9.endpoint-pair", key, c.Pos(as.Pos()), "after Reverse the two end points of the segment disagree on `"+f+"` (`"+types.ExprString(ts[0].rhs)+"` vs `"+types.ExprString(ts[1].rhs)+"` with both equal before): whoever reads it from the other end point sees the stale direction")
+			} else {
+				r.Fail("E9.endpoint-pair", key, c.Pos(as.Pos()), "after Reverse both end points have the same `left`")
+			}
+		}
+		return true
+	})
+	for _, f := range []string{"left", "increasing"} {
+		if !seen[f] {
+			n++
+			r.Fail("E9.endpoint-pair", "canvas.SweepPoint.Reverse|field "+f+" stays consistent between the two end points", c.Pos(fd.Pos()), "Reverse does not update `"+f+"` on the pair")
+		}
+	}
+	r.Count("E9.endpoint-pair-sites", n)
+	r.Floor("E9.endpoint-pair-sites", 3)
 }
